@@ -485,11 +485,20 @@ func (af *AdaptationField) SetHasTransportPrivateData(value bool) error {
 		return err
 	}
 	delta := 1 * af.bitDelta(5, 0x02, value)
-	err := af.resizeAF(af.transportPrivateDataStart(), delta)
+	if delta == 0 {
+		return nil // already in the requested state
+	}
+	start := af.transportPrivateDataStart()
+	if delta < 0 {
+		delta = -af.transportPrivateDataLength() // remove the length byte and the data
+	}
+	err := af.resizeAF(start, delta)
 	if err != nil {
 		return err
 	}
-	af[af.transportPrivateDataStart()] = 0 // zero length by default
+	if delta > 0 {
+		af[start] = 0 // zero length by default
+	}
 	af.setBit(5, 0x02, value)
 	return nil
 }
@@ -543,11 +552,20 @@ func (af *AdaptationField) SetHasAdaptationFieldExtension(value bool) error {
 		return err
 	}
 	delta := 1 * af.bitDelta(5, 0x01, value)
-	err := af.resizeAF(af.adaptationExtensionStart(), delta)
+	if delta == 0 {
+		return nil // already in the requested state
+	}
+	start := af.adaptationExtensionStart()
+	if delta < 0 {
+		delta = -af.adaptationExtensionLength() // remove the length byte and the data
+	}
+	err := af.resizeAF(start, delta)
 	if err != nil {
 		return err
 	}
-	af[af.adaptationExtensionStart()] = 0
+	if delta > 0 {
+		af[start] = 0 // zero length by default
+	}
 	af.setBit(5, 0x01, value)
 	return nil
 }
